@@ -557,9 +557,15 @@ func refcountCase(c *mon.Case, prop string, idx int) {
 			switch x.IntN(6) {
 			case 0, 1, 2:
 				ctx, tag := cx.fresh()
-				c.Rec("ctx", fmt.Sprint("SetContext new#", tag), nil)
+				done := x.IntN(8) == 0
+				if done {
+					// a context that is already done: same bookkeeping as a context cancelled behind the container's back
+					ctx, tag = cx.freshDone(x.IntN(2))
+					c.Count("setcontext_done_context_calls", 1)
+				}
+				c.Rec("ctx", fmt.Sprint("SetContext new#", tag, " done=", done), nil)
 				w.rc.SetContext(ctx)
-				ctxLive, ctxCleared, ctxRootCancelled = true, false, false
+				ctxLive, ctxCleared, ctxRootCancelled = !done, false, done
 				curRoot = cx.cancel
 			case 3:
 				c.Rec("ctx", "ClearContext", nil)
